@@ -90,6 +90,11 @@ def generate(rng, opts):
     if r.random() < 0.35:
         cfg = {"nan": r.choice(["NaN", "nan", "n/a"]), "inf": r.choice(["Infinity", "inf", "+oo"]),
                "minf": r.choice(["-Infinity", "-inf", "-oo"])}
+        if r.random() < 0.3:
+            # only some of the three strings are set (each writer branch tests its own string)
+            for key in ("nan", "inf", "minf"):
+                if r.random() < 0.4:
+                    cfg[key] = None
     if r.random() < opts.get("json_layout_share", 0.3):
         # output side on arrays the JSON reader can never produce: every node class, index width and numeric dtype,
         # strided and offset buffers (the reader only builds int64/float64/bool leaves below ListOffsetArray64)
@@ -236,7 +241,15 @@ def outcome(node, fn):
         h = fn()
     except NodeError as e:
         return ("raise", e.cls, e.msg)
-    v = vm.loads(node.dump(h))
+    try:
+        v = vm.loads(node.dump(h))
+    except NodeError as e:
+        # the reader returned something the independent walker cannot read (an index pointing outside its content ...)
+        try:
+            verr = node.text(h, 3).decode("latin-1")[:300]
+        except NodeError:
+            verr = "(the validity check raised too)"
+        raise Violation("value", "result_is_not_a_readable_layout", {"error": [e.cls, e.msg[:300]], "validityerror": verr})
     return ("value", v, h)
 
 
